@@ -32,6 +32,14 @@ def shank_map(kind, n, rng, nshank):
         sh = rng.integers(0, max(nshank - 1, 1), n)
         sh[: max(nshank - 1, 1)] = np.arange(max(nshank - 1, 1))
         sh[int(rng.integers(1, n - 1))] = nshank - 1
+    elif kind == "noshank0":       # the recording uses no site on shank 0 (e.g. shanks 1 and 2 only)
+        used = list(range(1, max(nshank, 2) + 1))[:3]
+        sh = np.array([used[i % len(used)] for i in rng.integers(0, len(used), n)])
+        sh[: len(used)] = used
+    elif kind == "gap":            # shanks 0 and 2 (or 0 and 3): a shank number is skipped
+        used = [0, 2 + int(rng.integers(0, 2))]
+        sh = np.array([used[i] for i in rng.integers(0, 2, n)])
+        sh[:2] = used
     else:
         raise ValueError(kind)
     cnt = {}
@@ -125,6 +133,31 @@ def convert(ap_file, w, **kw):
         except Exception:
             pass
     return status, rec.events, conv, exc
+
+
+def convert_reuse(ap_file, w1, w2, **kw):
+    """the same converter object used twice: process() with window w1, then init_params(nwindow=w2) and
+    process(overwrite=True). Returns what `convert` returns, for the SECOND run."""
+    import neuropixel
+    conv = neuropixel.NP2Converter(ap_file, post_check=kw.get("post_check", False), compress=False, delete_original=False)
+    conv.init_params(nwindow=w1)
+    exc, status, events = "", None, []
+    try:
+        st1 = conv.process()
+        if st1 != 1:
+            return st1, [], conv, f"first run returned {st1}"
+        conv.init_params(nwindow=w2)
+        rec = Recorder(conv)
+        status = conv.process(overwrite=True)
+        events = rec.events
+    except Exception as e:  # noqa
+        exc = f"{type(e).__name__}: {e}"
+    finally:
+        try:
+            conv.sr.close()
+        except Exception:
+            pass
+    return status, events, conv, exc
 
 
 def window_events(events, nsamp_of_first):
